@@ -17,6 +17,7 @@ OVERLAY_DIRS = {
     "overlay/sgxepc": "cmd/plugins/sgx-epc",
     "overlay/hooks_ta": "cmd/plugins/topology-aware/policy",
     "overlay/hooks_balloons": "cmd/plugins/balloons/policy",
+    "overlay/hooks_cpuctl": "pkg/resmgr/control/cpu",
 }
 
 FIXTURE = "a generated sysfs fixture tree stands in for real hardware"
@@ -142,3 +143,12 @@ _hist("C09", [{"name": "ta-leaks", "pkg": RESMGR, "run": "^TestVerifC09TA$", "re
 _hist("C12", [{"name": "ta-optouts", "pkg": RESMGR, "run": "^TestVerifC12TA$", "replay_run": "^TestVerifC12TAReplay$", "q": 200, "t": 40000, "per_proc": 500}],
       "rapid stateful histories in which a third of the pods carry cpu.preserve/memory.preserve (container, pod or bare form) or pinning is configured off; oracle = every adjustment/update/push addressed to an opted-out container is inspected before it is applied to the runtime model",
       "non-trivial = an opted-out container existed while a later request changed the told cpuset or memory nodes of another container")
+_hist("C02", [{"name": "balloons", "pkg": RESMGR, "run": "^TestVerifC02$", "replay_run": "^TestVerifC02Replay$", "q": 250, "t": 48000, "per_proc": 500}],
+      "rapid stateful request histories on a real balloons resource manager with generated balloon-type configurations; oracle = partition/confinement/sharing-scope/limit/CPU-class invariants computed from the hardware model, the configuration, advertised zones, white-box balloon snapshot and the runtime model of told cpusets",
+      "non-trivial = at least two user-defined balloons were non-empty at once and the history contained both an inflate and a deflate (or balloon deletion)")
+def _add_unit(prop, unit):
+    PROPS[prop]["units"].append(unit)
+_add_unit("C05", {"name": "balloons-histories", "pkg": RESMGR, "run": "^TestVerifC05Balloons$", "replay_run": "^TestVerifC05BalloonsReplay$", "q": 200, "t": 40000, "per_proc": 500})
+_add_unit("C04", {"name": "balloons-memory", "pkg": RESMGR, "run": "^TestVerifC04Balloons$", "replay_run": "^TestVerifC04BalloonsReplay$", "q": 200, "t": 40000, "per_proc": 500})
+_add_unit("C09", {"name": "balloons-leaks", "pkg": RESMGR, "run": "^TestVerifC09Balloons$", "replay_run": "^TestVerifC09BalloonsReplay$", "q": 200, "t": 40000, "per_proc": 500})
+_add_unit("C12", {"name": "balloons-optouts", "pkg": RESMGR, "run": "^TestVerifC12Balloons$", "replay_run": "^TestVerifC12BalloonsReplay$", "q": 200, "t": 40000, "per_proc": 500})
